@@ -4,7 +4,7 @@ from bounded.C01 import ELLS, ISG_ZONES, _proj, _cm
 
 RULES = {
     'C02.B.geo_grid_geo': 'lattice lat{-80+1e-6..84-1e-6, 0, +-1e-7} x (lon-cm){0,+-1e-6,+-3,+-20,+-30} x zones x 8 ellipsoids x {UTM, ISG, random projections} + random: geo -> grid -> geo within 2e-9 deg (positions within 1e-6 deg of the equator compared modulo the N=0 north / N=FN south identification)',
-    'C02.B.grid_geo_grid': 'direct grid lattice (zones, both hemispheres, eastings -2.8e6..3.8e6 step, northings 0..1e7) restricted to |lon-cm| <= 30 deg, lon in [-180,180], lat 1e-6 inside the band: grid -> geo -> grid within 0.2 mm',
+    'C02.B.grid_geo_grid': 'direct grid lattice (zones, both hemispheres, eastings -2.8e6..3.8e6 step, northings 0..1e7) restricted to |lon-cm| <= 30 deg, lon in [-180,180], lat 1e-6 inside the band: grid -> geo -> grid within 0.2 mm; the same position for the hemisphere word in capitalised, lower and upper case',
     'C02.B.mirror': 'northing N in the north vs FN-N in the south: latitudes exactly opposite, longitudes identical',
     'C02.B.standalone': 'Standalone/mga2gda.py grid2geo vs the library on southern-hemisphere UTM (GRS80) grid lattice + random: 1e-10 deg',
 }
@@ -114,6 +114,13 @@ def work(item):
                 continue
             if (hemi == 'North' and la < 0) or (hemi == 'South' and la > 0):
                 continue        # northing on the far side of the equator for that hemisphere label: not a valid grid coordinate
+            # the hemisphere word is accepted in any letter case (and is what CoordTM.geo passes in lower case): same position for every accepted spelling
+            for word in (hemi.lower(), hemi.upper()):
+                alt = cv.grid2geo(z, E_, N_, word, e, prj)
+                if alt[0] != la or alt[1] != lo:
+                    r2['failures'].append(dict(input=dict(zone=z, east=E_, north=N_, hemisphere=word, a=e.semimaj, invf=e.inversef, prj=[FE, FN, prj.cmscale, prj.zonewidth, prj.initialcm], isg=isg),
+                                               what='position depends on the letter case of the hemisphere word', spelled=word, got=list(alt[:2]), with_capitalised_word=[la, lo]))
+                    break
             g = cv.geo2grid(la, lo, z, e, prj)
             r2['n'] += 1
             r2['keys'].add((z, E_, N_, hemi, item['kind'], e.semimaj))
